@@ -165,6 +165,21 @@ func (w *World) decode(dst *roaring.Bitmap, data []byte, e int, seed uint64, pro
 	return
 }
 
+func firstDiffByte(a, b []byte) int {
+	for i := 0; i < len(a) && i < len(b); i++ {
+		if a[i] != b[i] {
+			return i
+		}
+	}
+	if len(a) != len(b) {
+		if len(a) < len(b) {
+			return len(a)
+		}
+		return len(b)
+	}
+	return -1
+}
+
 // wrapBase64 lays Base64 text out the way mail, PEM or the base64 tool do: wrapped lines.
 func wrapBase64(txt string, sel uint64) string {
 	width := []int{76, 64, 4, 77}[sel&3]
@@ -304,6 +319,32 @@ func init() {
 			if len(offs) == len(data) {
 				w.probe("writer-offsets-exhaustive")
 			}
+			// recovery: after the failed writes another bitmap must still serialize to the bytes it
+			// serialized to before them (whatever the failed calls left in pooled or cached buffers)
+			other := -1
+			var obefore []byte
+			for off := 1; off < len(w.B); off++ {
+				if j := (st.S[0] + off) % len(w.B); !w.B[j].M.IsEmpty() && !w.giant(j) {
+					other = j
+					break
+				}
+			}
+			if other >= 0 {
+				w.try("C05", func() { obefore, _ = w.B[other].BM.ToBytes() })
+			}
+			defer func() {
+				if other < 0 || obefore == nil || w.panicked {
+					return
+				}
+				var oafter []byte
+				var oerr error
+				if w.try("C05", func() { oafter, oerr = w.B[other].BM.ToBytes() }) {
+					return
+				}
+				if oerr != nil || !bytes.Equal(obefore, oafter) {
+					w.fail("C05", "write-after-fault", "a successful write after failed writes differs from the same write before them", fmt.Sprintf("slot %d serialized to %d bytes before the failed writes of slot %d and to %d bytes (err=%v) after them; first difference at byte %d", other, len(obefore), st.S[0], len(oafter), oerr, firstDiffByte(obefore, oafter)))
+				}
+			}()
 			for _, k := range offs {
 				for mode := simio.WShort; mode < simio.WNumModes; mode++ {
 					fw := &simio.FaultyWriter{Mode: mode, At: k}
